@@ -8,7 +8,8 @@ connection.py channel lookup).
    after) | protocol_error | ignored | unimpl, every row an initial state,
    against HonestAccepted (RFC 4254 section 5), NothingPastEof,
    NoReplyUnsolicited, UnknownChannelIsError, DeadChannelIsError,
-   WindowEnforced, ReplyIffWanted, NoDataAfterLocalClose, ErrorHasNoEffect;
+   WindowEnforced, ReplyIffWanted, NoDataAfterLocalClose, ErrorHasNoEffect,
+   ClosesCleanly (the peer's CLOSE afterwards ends the channel in order);
    eight wrong variants of the rules that TLC must reject; the table is
    emitted row by row.
 2. specs/Channel/ChanGateLC.tla instantiates Lifecycle.tla next to the
@@ -17,7 +18,8 @@ connection.py channel lookup).
 3. Every row is materialised (harness/drivers/changate.py): a real server
    channel with a raw client, a real client channel with a raw server,
    driven into the state class through the public API and honest messages,
-   then the message; monitors on what the session heard, what the endpoint
+   then the message, then resume_reading(), then the peer's CLOSE; monitors
+   on what the session heard, what the endpoint
    emitted, how the connection ended, loop exceptions, CPU-time watchdog.
 4. Self-test: deliberately mutated handlers (monkeypatched copies of the
    real functions) must be caught by the same run.
@@ -29,17 +31,24 @@ import random
 import re
 
 from harness import tlc
-from harness.framework import run_check, MachineryError, VERIF
+from harness.framework import run_check, VERIF
 
 SPEC = os.path.join(VERIF, 'specs', 'Channel')
 LIFE = os.path.join(VERIF, 'specs', 'Lifecycle')
+# The rule for a second shell/exec/subsystem request on a started channel:
+# 'as_coded' (observation F10: handed to the application again) is what the
+# tree does; after fixes/x07_second_start_request.patch set 'refused'
+# (RFC 4254 6.5).  With 'refused' on an unpatched tree the rows
+# {msg: REQ_START, clause: StartOnce} are reported as violations.
+SECOND_START = os.environ.get('X07_SECOND_START', 'as_coded')
 BASE = dict(DataAfterEof='FALSE', AdjustAfterEof='TRUE', UnknownChan='"error"',
             ReplyUnsolicited='FALSE', DropAfterClose='TRUE',
             ReplyWhileClosing='TRUE', CheckWindow='TRUE',
-            SecondStart='"as_coded"')
+            SecondStart=f'"{SECOND_START}"')
 INVS = ['HonestAccepted', 'NothingPastEof', 'NoReplyUnsolicited',
         'UnknownChannelIsError', 'DeadChannelIsError', 'WindowEnforced',
-        'ReplyIffWanted', 'NoDataAfterLocalClose', 'ErrorHasNoEffect']
+        'ReplyIffWanted', 'NoDataAfterLocalClose', 'ErrorHasNoEffect',
+        'ClosesCleanly']
 # wrong rules TLC must reject: (name, constants, invariant that catches it)
 SENS = [
     ('data_after_eof', dict(DataAfterEof='TRUE'), 'NothingPastEof'),
@@ -77,16 +86,18 @@ def write_cfg(name, consts, invs, spec='Spec'):
 
 
 def mc(ctx, name, consts, invs, expect=None, module='ChanGate', spec='Spec',
-       env=None, coverage=False):
+       env=None, coverage=False, heap='2g'):
     tag = f'x07_{name}_{os.getpid()}'
     cfg = write_cfg(f'_{tag}.cfg', consts, invs, spec)
     try:
         res = tlc.run(SPEC, module, cfg, tag, workers=2, timeout=600,
-                      java_heap='2g', env=dict(JVM, **(env or {})),
+                      java_heap=heap, env=dict(JVM, **(env or {})),
                       coverage=coverage)
     finally:
         tlc.cleanup(tag)
         os.remove(os.path.join(SPEC, cfg))
+    if ctx is None:
+        return f'{module} {name} {consts}', res, expect
     ctx.require_tlc_ok(f'{module} {name} {consts}', res,
                        expect_violation=expect)
     return res
@@ -185,27 +196,35 @@ def main(ctx):
     rows = table(ctx)
     ctx.require(len(rows) > 2000, f'table has only {len(rows)} rows')
     whys = {o['o']['why'] for _, o in rows}
-    ctx.require(whys == BRANCHES,
+    branches = BRANCHES if SECOND_START == 'as_coded' else \
+        BRANCHES - {'start_again'} | {'start_refused'}
+    ctx.require(whys == branches,
                 f'branches of the handlers not all exercised by the rows: '
-                f'missing {sorted(BRANCHES - whys)}, unknown '
-                f'{sorted(whys - BRANCHES)}')
-    for name, consts, inv in SENS:
-        mc(ctx, 's_' + name, consts, [inv], expect=inv)
-    mc(ctx, 'start_once', dict(SecondStart='"refused"'), INVS + ['StartOnce'])
-    # ---- 2. agreement with Lifecycle.tla on the honest subset ----
+                f'missing {sorted(branches - whys)}, unknown '
+                f'{sorted(whys - branches)}')
+    # the other TLC runs go on in the background while the rows are replayed
+    import concurrent.futures
+    ex = concurrent.futures.ThreadPoolExecutor(max_workers=3 if quick else 4)
     lib = {'_JAVA_OPTIONS': JVM['_JAVA_OPTIONS'] + f' -DTLA-Library={LIFE}'}
-    res = mc(ctx, 'lifecycle', {}, ['AgreesWithLifecycle'],
-             module='ChanGateLC', spec='SpecLC', env=lib, coverage=True)
-    cov = [(int(a), int(b)) for a, b in re.findall(
-        r'^<NextLC line [^>]*\)>: (\d+):(\d+)', res.output, re.M)]
-    ctx.require(len(cov) == 3 and all(a > 0 for a, _ in cov),
-                f'ChanGateLC: not every action was taken: {cov}')
-    ctx.require(res.distinct > 700, f'ChanGateLC: {res.distinct} states')
-    mc(ctx, 'lifecycle_wit', {}, ['Witness'], expect='Witness',
-       module='ChanGateLC', spec='SpecLC', env=lib)
-    mc(ctx, 'lifecycle_sens', dict(AdjustAfterEof='FALSE'),
-       ['AgreesWithLifecycle'], expect='AgreesWithLifecycle',
-       module='ChanGateLC', spec='SpecLC', env=lib)
+    LC = dict(module='ChanGateLC', spec='SpecLC', env=lib)
+    jobs = []
+
+    def bg(*a, **kw):
+        jobs.append(ex.submit(mc, None, *a, **kw))
+        return jobs[-1]
+
+    # ---- 2. agreement with Lifecycle.tla on the honest subset ----
+    # (-coverage costs TLC several GB on this module: thorough tier only; the
+    # quick tier relies on the state count and on the witness below, whose
+    # violation needs all three actions: set-up, Deliver, RunReady)
+    f_lc = bg('lifecycle', {}, ['AgreesWithLifecycle'], coverage=not quick,
+              heap='2g' if quick else '6g', **LC)
+    bg('lifecycle_wit', {}, ['Witness'], expect='Witness', **LC)
+    bg('lifecycle_sens', dict(AdjustAfterEof='FALSE'),
+       ['AgreesWithLifecycle'], expect='AgreesWithLifecycle', **LC)
+    for name, consts, inv in SENS:
+        bg('s_' + name, consts, [inv], expect=inv)
+    bg('start_once', dict(SecondStart='"refused"'), INVS + ['StartOnce'])
 
     # ---- 3. every row against the real code ----
     seeds = [ctx.seed] if quick else [ctx.seed * 100 + k for k in range(10)]
@@ -234,12 +253,29 @@ def main(ctx):
                             'later': r['obs'].get('later')})
             report(ctx, row, r, sd, counters)
     ctx.traces_validated(n)
-    ctx.require(not skipped, f'{len(skipped)} rows could not be set up, '
-                f'first: {skipped[:2]}')
+    if skipped and ctx.violations:
+        # a tree that breaks the property may also leave the paths the set-up
+        # relies on: the violations are the verdict
+        ctx.notes.append(f'{len(skipped)} rows could not be set up, first: '
+                         f'{skipped[:2]}')
+    else:
+        ctx.require(not skipped, f'{len(skipped)} rows could not be set up, '
+                    f'first: {skipped[:2]}')
     ctx.coverage['rows'] = len(rows)
     ctx.coverage['rows_by_class'] = {'/'.join(k): v for k, v in
                                      sorted(classes.items())}
     ctx.coverage['honest_rows'] = sum(1 for _, p in rows if p['honest'])
+    for j in jobs:
+        title, res, expect = j.result()
+        ctx.require_tlc_ok(title, res, expect_violation=expect)
+    ex.shutdown()
+    res = f_lc.result()[1]
+    if not quick:
+        cov = [(int(a), int(b)) for a, b in re.findall(
+            r'^<NextLC line [^>]*\)>: (\d+):(\d+)', res.output, re.M)]
+        ctx.require(len(cov) == 3 and all(a > 0 for a, _ in cov),
+                    f'ChanGateLC: not every action was taken: {cov}')
+    ctx.require(res.distinct >= 3 * 260, f'ChanGateLC: {res.distinct} states')
     # ---- 4. self-test ----
     if not ctx.violations:
         self_test(ctx, drv, rows, rnd)
